@@ -56,10 +56,11 @@ const (
 	StepCap                 // MaxSteps exceeded
 	Failed                  // Fail() was called
 	Panicked                // a thread panicked
+	Pruned                  // the explorer had already visited this state (state caching)
 )
 
 func (s Status) String() string {
-	return [...]string{"done", "quiescent", "stepcap", "failed", "panicked"}[s]
+	return [...]string{"done", "quiescent", "stepcap", "failed", "panicked", "pruned"}[s]
 }
 
 // ThreadInfo is a snapshot of one thread.
@@ -102,6 +103,8 @@ type Thread struct {
 	exited  chan struct{}
 	daemon  bool
 	inRunq  bool
+	h       H
+	spawned uint64
 }
 
 func (t *Thread) ID() int      { return t.id }
@@ -109,30 +112,33 @@ func (t *Thread) Name() string { return t.name }
 
 // Runtime is the state of one execution.
 type Runtime struct {
-	cfg      Config
-	epoch    uint64
-	threads  []*Thread
-	cur      *Thread
-	main     *Thread
-	runq     []*Thread
-	now      int64
-	timers   []*rtimer
-	timerSeq uint64
-	steps    int
-	points   int
-	aborting bool
-	ended    bool
-	status   Status
-	fail     string
-	stack    string
-	finished chan struct{}
-	idle     *Thread
-	idleDl   int64
-	enBuf    []*Thread
-	costBuf  []int8
-	trace    []string
-	daemonSp bool // threads spawned now are daemons (library threads)
-	onEnd    []func()
+	cfg        Config
+	epoch      uint64
+	threads    []*Thread
+	cur        *Thread
+	main       *Thread
+	runq       []*Thread
+	now        int64
+	timers     []*rtimer
+	timerSeq   uint64
+	steps      int
+	points     int
+	aborting   bool
+	ended      bool
+	status     Status
+	fail       string
+	stack      string
+	finished   chan struct{}
+	idle       *Thread
+	idleDl     int64
+	enBuf      []*Thread
+	costBuf    []int8
+	trace      []string
+	daemonSp   bool // threads spawned now are daemons (library threads)
+	earlyFires int
+	addrH      map[uintptr]*H
+	pruner     Pruner
+	onEnd      []func()
 }
 
 var (
@@ -175,6 +181,7 @@ func Run(cfg Config, main func()) *Outcome {
 	}
 	epochCtr++
 	r := &Runtime{cfg: cfg, epoch: epochCtr, finished: make(chan struct{}, 1)}
+	r.pruner, _ = cfg.Chooser.(Pruner)
 	rt = r
 	execBegin()
 	t := r.spawn("main", main)
@@ -262,6 +269,13 @@ func handoff(t *Thread) {
 
 func (r *Runtime) spawn(name string, fn func()) *Thread {
 	t := &Thread{id: len(r.threads), name: name, wake: make(chan struct{}, 1), exited: make(chan struct{}), daemon: r.daemonSp}
+	if p := r.cur; p != nil {
+		p.spawned++
+		t.h = mix(p.h, H{p.spawned, 0}, 0x60)
+		p.h = mix(p.h, H{p.spawned, 1}, 0x61)
+	} else {
+		t.h = H{1, 1}
+	}
 	r.threads = append(r.threads, t)
 	r.ready(t)
 	raceSpawn(t)
@@ -491,6 +505,7 @@ func (r *Runtime) reschedule(curRunnable bool) {
 			if r.idle != nil && (next == nil || next.when > r.idleDl) {
 				t := r.idle
 				r.idle = nil
+				absorb(t, H{uint64(r.now), 0x1d})
 				r.ready(t)
 				continue
 			}
@@ -514,6 +529,13 @@ func (r *Runtime) reschedule(curRunnable bool) {
 		}
 		idx := 0
 		if n > 1 {
+			if r.pruner != nil && !r.pruner.Visit(r.stateKey(curRunnable)) {
+				if cur.state == tDone {
+					r.finish(Pruned)
+					return
+				}
+				r.endAndPark(Pruned)
+			}
 			costs := r.costBuf[:0]
 			for i := 0; i < len(en); i++ {
 				c := int8(0)
@@ -533,6 +555,7 @@ func (r *Runtime) reschedule(curRunnable bool) {
 			idx = r.choose(KThread, n, costs, "")
 		}
 		if idx == timerOpt {
+			r.earlyFires++
 			r.fireAt(next.when)
 			continue
 		}
@@ -584,7 +607,9 @@ func Choose(n int, label string) int {
 	if r.aborting || n <= 1 {
 		return 0
 	}
-	return r.choose(KEnv, n, nil, label)
+	c := r.choose(KEnv, n, nil, label)
+	r.cur.h = mix(r.cur.h, H{uint64(c), uint64(n)}, 0xe0)
+	return c
 }
 
 // ChooseDev is an environment choice whose non-default alternatives cost one deviation each.
@@ -600,7 +625,9 @@ func ChooseDev(n int, label string) int {
 	for i := 1; i < n; i++ {
 		costs[i] = 1
 	}
-	return r.choose(KEnv, n, costs, label)
+	c := r.choose(KEnv, n, costs, label)
+	r.cur.h = mix(r.cur.h, H{uint64(c), uint64(n)}, 0xe1)
+	return c
 }
 
 // Idle blocks the calling thread until nothing else is runnable and no timer is due within d of
@@ -620,3 +647,11 @@ func Idle(d time.Duration) {
 
 // Yield is an explicit scheduling point for harness code.
 func Yield() { Point("yield") }
+
+// EarlyFires returns how many times a timer was fired early (a C-deviation) in this execution.
+func EarlyFires() int {
+	if rt == nil {
+		return 0
+	}
+	return rt.earlyFires
+}
